@@ -7,6 +7,7 @@ import (
 	"fmt"
 	"strings"
 	"testing"
+	"time"
 
 	"pgregory.net/rapid"
 	"verif/harness/internal/bgen"
@@ -86,12 +87,29 @@ func TestC20Reopen(t *testing.T) {
 			reset()
 			sentinel := &reopenErr{n}
 			n.ReopenErr = sentinel
-			err := x.B.Reopen(context.Background())
+			// the context handed to Reopen may be live, cancelled or past its deadline: a failure that occurred is carried either way
+			rctx, rcancel := context.Background(), func() {}
+			ctxKind := rapid.SampledFrom([]string{"live", "live", "cancelled", "deadline-passed"}).Draw(t, fmt.Sprintf("reopenCtx%d", i))
+			switch ctxKind {
+			case "cancelled":
+				rctx, rcancel = context.WithCancel(context.Background())
+				rcancel()
+			case "deadline-passed":
+				rctx, rcancel = context.WithDeadline(context.Background(), time.Now().Add(-time.Minute))
+			}
+			err := x.B.Reopen(rctx)
+			rcancel()
+			if ctxKind != "live" && n.Reopens.Load() == 0 {
+				continue // the node was not asked to reopen at all under a done context: nothing failed
+			}
+			if ctxKind != "live" {
+				sec.Class("failing_node_under_done_context")
+			}
 			if err == nil {
-				t.Fatalf("VIOLATION C20: Reopen returned nil although node %s failed to reopen\nhistory: %s", n.Name, strings.Join(hist, "; "))
+				t.Fatalf("VIOLATION C20: Reopen (context %s) returned nil although node %s failed to reopen\nhistory: %s", ctxKind, n.Name, strings.Join(hist, "; "))
 			}
 			if !errors.Is(err, sentinel) && !strings.Contains(err.Error(), sentinel.Error()) {
-				t.Fatalf("VIOLATION C20: Reopen's error %q does not carry the failure of node %s\nhistory: %s", err, n.Name, strings.Join(hist, "; "))
+				t.Fatalf("VIOLATION C20: Reopen's error %q (context %s) does not carry the failure of node %s\nhistory: %s", err, ctxKind, n.Name, strings.Join(hist, "; "))
 			}
 			sec.Class("single_failing_node")
 		}
